@@ -83,7 +83,12 @@ SPEC = {
              "accepting connections when its first call arrives - the connections it has stay served, its port stays reserved - while a "
              "startup schedule (const 10/20 per s or line up to 40 per s, over 200-300 ms) is still starting instances and a const rps "
              "schedule paces 10-16 calls: Engine.Run must return nil, every call must leave one sample, 200 for exactly the calls the target "
-             "received and 503 (Unavailable) for all others. Pools are built by config.DecodeAndValidate, run by the real "
+             "received and 503 (Unavailable) for all others. The gun option `httptrace` (TestHTTPGun: http and connect guns, TestHTTP2Gun, "
+             "TestScenarioGun, TestHTTP2ScenarioGun, TestConnectProxy): `dump` (accounts the bytes of the dumped request and response) "
+             "and `trace` (accounts connect / send / latency stages) are each drawn on or off for every case, independent of all other "
+             "dimensions - the option only adds figures to the sample, so the same oracle judges all four combinations, in particular "
+             "for exchanges that end WITHOUT any response (refused, closed before / inside the headers, reset, response-header timeout, "
+             "malformed status line, failed TLS handshake, refused CONNECT), where there is nothing to dump or to time. Pools are built by config.DecodeAndValidate, run by the real "
              "engine, samples read from the real phout output. Non-trivial = at least one misbehaving exchange followed by a good one (refusing gRPC targets: "
              "at least one refused call reported and the run completed); "
              "distinct = hash of the case."),
@@ -129,6 +134,11 @@ SPEC = {
                "TestGRPCGuns/grpc_target_refuses_always": 0.1, "TestGRPCGuns/grpc_target_refuses_goes_away": 0.06,
                "TestGRPCGuns/grpc_goes_away_refused_seen": 0.06, "TestGRPCGuns/grpc_went_away_while_instances_start": 0.06,
                "TestGRPCGuns/grpc_target_refuses_scenario_gun": 0.1, "TestGRPCGuns/grpc_target_refuses_grpc_gun": 0.12,
+               "TestHTTPGun/httptrace_dump_no_response": 0.15, "TestHTTP2Gun/httptrace_dump_no_response": 0.13,
+               "TestScenarioGun/httptrace_dump_no_response": 0.09, "TestHTTP2ScenarioGun/httptrace_dump_no_response": 0.15,
+               "TestConnectProxy/httptrace_dump_no_response": 0.15,
+               "TestHTTPGun/httptrace_trace": 0.15, "TestHTTP2Gun/httptrace_trace": 0.15, "TestScenarioGun/httptrace_trace": 0.15,
+               "TestHTTP2ScenarioGun/httptrace_trace": 0.15, "TestConnectProxy/httptrace_trace": 0.15,
                # absolute counts (every case of the batch runs both guns)
                "TestGRPCDefaultTimeout/default_timeout_grpc_gun": 1, "TestGRPCDefaultTimeout/default_timeout_grpc_scenario_gun": 1},
     "manifest": {
